@@ -42,6 +42,8 @@ type Tok struct {
 	Custom bool // registered (non built-in) operator
 	// a token may be both a prefix operator and an infix/postfix operator (e.g. "-", "++", "(" , "[")
 	AlsoPrefix bool
+	// the prefix role (of a built-in infix token) was registered by the test: its node is a custom node
+	CustomPrefix bool
 }
 
 type parser struct {
@@ -92,7 +94,7 @@ func (p *parser) prefix() *ir.Node {
 		return ir.N(ir.Ident, t.Text)
 	case t.Role == Prefix || t.AlsoPrefix && (t.Role == InfixLeft || t.Role == Postfix):
 		operand := p.expr(Unary)
-		if t.Custom {
+		if t.Custom || t.CustomPrefix {
 			return ir.N(ir.Custom, "pre:"+t.Text, operand)
 		}
 		return ir.N(ir.Unary, t.Text, operand)
